@@ -8,6 +8,7 @@ CONSTANTS
   AllowPop = TRUE
   GrowUntil = 0
   ShrinkFrom = 1000000
+  AppendOnly = FALSE
   Persist = FALSE
   EmitDepth = 0
 VIEW View
